@@ -12,6 +12,7 @@
 #include <eventpp/eventqueue.h>
 #include <eventpp/hetercallbacklist.h>
 #include <eventpp/hetereventdispatcher.h>
+#include <eventpp/hetereventqueue.h>
 #include <eventpp/mixins/mixinfilter.h>
 #include <eventpp/utilities/scopedremover.h>
 #include <eventpp/utilities/counterremover.h>
@@ -513,6 +514,100 @@ struct SRemovers : Subject {
 	std::string key() override { int sl = 0, sd = 0; for(int id : ml) sl += viaScoped.count(id); for(int id : md) sd += viaScoped.count(id); return fmt("%zu.%d,%zu.%d", ml.size(), sl, md.size(), sd); }
 };
 
+// ------------------------------------------------------------------ S6: HeterEventQueue with throwing arguments / listeners / predicate
+typedef eventpp::HeterTuple<void(int), void(const FPayload &)> HTQ;
+template <typename Th>
+struct SHeterQueue : Subject {
+	typedef eventpp::HeterEventQueue<int, HTQ, P<Th> > Q;
+	Q * q = nullptr;
+	struct Ev { int id; int proto; };
+	std::deque<Ev> pending; std::vector<int> lis[2]; int nextEv = 1;
+	using Subject::Subject;
+	void build() override { q = new Q(); pending.clear(); lis[0].clear(); lis[1].clear(); nextEv = 1; }
+	void destroy() override { delete q; q = nullptr; }
+	int menu() override { return 2 + 3 + 2 + 2 + 1 + 1; }
+	void pushDispatch(std::vector<int> & want, const Ev & e) { for(int l : lis[e.proto]) want.push_back(l * 1000 + e.id); }
+	// after a failed processing call: whatever is still queued must be known, undispatched events, in order
+	void drainAndAdopt(const std::vector<int> & alreadySeen) {
+		std::vector<int> seen; g_seen = &seen;
+		while(q->process()) {}
+		g_seen = nullptr;
+		std::set<int> known; for(auto & e : pending) known.insert(e.id);
+		for(int v : seen) { int id = v % 1000; if(!known.count(id)) ctx.fail("event-from-nowhere", fmt("after a failed processing call event %d was dispatched although it was not pending", id)); }
+		(void)alreadySeen;
+		pending.clear();
+	}
+	void op(Bfs & b, int o) override {
+		if(o < 2) {
+			if(lis[o].size() >= 2) b.skip();
+			int id = (int)(lis[0].size() + lis[1].size()) + 1;
+			ctx.log(fmt("appendListener(%s) -> L%d", o ? "void(const FPayload&)" : "void(int)", id));
+			Outcome r = attempt(ctx, "HeterEventQueue::appendListener", [&]() {
+				if(o == 0) q->appendListener(1, [id](int v) { faultPoint("listener-invoke"); note(id * 1000 + v); });
+				else q->appendListener(1, [id](const FPayload & p) { faultPoint("listener-invoke"); note(id * 1000 + p.id); });
+			});
+			if(r == O_DONE) lis[o].push_back(id);
+			return;
+		}
+		o -= 2;
+		if(o < 3) {
+			if(pending.size() >= 3) b.skip();
+			int id = nextEv++;
+			FPayload lv(id);
+			ctx.log(fmt("enqueue(%s %d)", o == 0 ? "int" : o == 1 ? "payload lvalue" : "payload rvalue", id));
+			Outcome r = attempt(ctx, "HeterEventQueue::enqueue", [&]() { if(o == 0) q->enqueue(1, id); else if(o == 1) q->enqueue(1, lv); else q->enqueue(1, FPayload(id)); });
+			if(r == O_DONE) pending.push_back(Ev{id, o == 0 ? 0 : 1});
+			return;
+		}
+		o -= 3;
+		if(o < 2) {
+			bool one = o == 1;
+			std::deque<Ev> batch; if(one) { if(!pending.empty()) batch.push_back(pending.front()); } else batch = pending;
+			std::vector<int> want, seen; for(auto & e : batch) pushDispatch(want, e);
+			g_seen = &seen; bool got = false;
+			ctx.log(one ? "processOne" : "process");
+			Outcome r = attempt(ctx, one ? "HeterEventQueue::processOne" : "HeterEventQueue::process", [&]() { got = one ? q->processOne() : q->process(); });
+			g_seen = nullptr;
+			if(r == O_DONE) { if(one) { if(!pending.empty()) pending.pop_front(); } else pending.clear(); if(seen != want) ctx.fail("dispatch-differs", fmt("processing dispatched %s, expected %s", vec(seen).c_str(), vec(want).c_str())); if(got != !batch.empty()) ctx.fail("result-wrong", "process result wrong"); }
+			else { if(seen.size() > want.size() || !std::equal(seen.begin(), seen.end(), want.begin())) ctx.fail("dispatch-differs", fmt("before the exception processing dispatched %s, not a prefix of %s", vec(seen).c_str(), vec(want).c_str())); drainAndAdopt(seen); }
+			return;
+		}
+		o -= 2;
+		if(o < 2) {   // processIf with a predicate over int events (odd) / payload events (odd)
+			int proto = o;
+			std::deque<Ev> keep; std::vector<int> want, seen;
+			for(auto & e : pending) { if(e.proto != proto) { keep.push_back(e); continue; } want.push_back(-e.id); if(e.id % 2 == 1) pushDispatch(want, e); else keep.push_back(e); }
+			g_seen = &seen;
+			ctx.log(fmt("processIf(odd %s events)", proto ? "payload" : "int"));
+			Outcome r = attempt(ctx, "HeterEventQueue::processIf", [&]() {
+				if(proto == 0) q->processIf([&](int v) { faultPoint("predicate"); note(-v); return v % 2 == 1; });
+				else q->processIf([&](const FPayload & p) { faultPoint("predicate"); note(-p.id); return p.id % 2 == 1; });
+			});
+			g_seen = nullptr;
+			if(r == O_DONE) { pending = keep; if(seen != want) ctx.fail("dispatch-differs", fmt("processIf observed %s, expected %s", vec(seen).c_str(), vec(want).c_str())); }
+			else { if(seen.size() > want.size() || !std::equal(seen.begin(), seen.end(), want.begin())) ctx.fail("dispatch-differs", fmt("before the exception processIf observed %s, not a prefix of %s", vec(seen).c_str(), vec(want).c_str())); drainAndAdopt(seen); }
+			return;
+		}
+		o -= 2;
+		if(o == 0) { ctx.log("clearEvents"); Outcome r = attempt(ctx, "HeterEventQueue::clearEvents", [&]() { q->clearEvents(); }); if(r == O_DONE) pending.clear(); else drainAndAdopt(std::vector<int>()); return; }
+		std::vector<int> seen; bool em = false;
+		ctx.log("copy-construct a temporary heterogeneous queue");
+		Outcome r = attempt(ctx, "HeterEventQueue copy construction", [&]() { Q tmp(*q); fctl().armed = false; em = tmp.emptyQueue(); g_seen = &seen; tmp.dispatch(1, 77); g_seen = nullptr; });
+		g_seen = nullptr;
+		if(r == O_DONE) { std::vector<int> want; pushDispatch(want, Ev{77, 0}); if(seen != want) ctx.fail("content-differs", fmt("a fresh copy dispatches %s, expected %s", vec(seen).c_str(), vec(want).c_str())); if(!em) ctx.fail("copy-not-empty", "a fresh copy of a heterogeneous queue does not report empty"); }
+	}
+	void verify(const char * when) override {
+		bool e = q->emptyQueue();
+		if(e != pending.empty()) { ctx.fail("emptiness-wrong", fmt("%s: emptyQueue()=%d with %zu events pending in the model", when, (int)e, pending.size())); return; }
+		bool w = q->waitFor(std::chrono::milliseconds(0));
+		if(w != !pending.empty()) { ctx.fail("waiting-wrong", fmt("%s: waitFor(0)=%d with %zu events pending", when, (int)w, pending.size())); return; }
+		int wantP = 0; for(auto & x : pending) if(x.proto == 1) ++wantP;
+		int have = ledger().liveTotal(TC_PAYLOAD, false);
+		if(have != wantP) ctx.fail("leak-or-loss", fmt("%s: %d payload objects alive, %d payload events pending: %s", when, have, wantP, ledger().describeLive().c_str()));
+	}
+	std::string key() override { std::string k; for(auto & e : pending) k += fmt("%d.%d,", e.proto, e.id % 2); return k + fmt("|L%zu,%zu|n%d", lis[0].size(), lis[1].size(), nextEv % 2); }
+};
+
 // ------------------------------------------------------------------ units
 template <typename S>
 static void addUnit(const std::string & name, int minTier, int dq, int dt, int faultsQuick = 1, int faultsThorough = 1) {
@@ -561,6 +656,9 @@ static struct Register {
 #if SEL(4)
 		addUnit<SHeter<MT> >(VERIF_PREFIX "/Heterogeneous/multi", 0, 3, 4, 1, 2);
 		addUnit<SRemovers<MT> >(VERIF_PREFIX "/Removers/multi", 0, 3, 4, 1, 2);
+#endif
+#if SEL(5)
+		addUnit<SHeterQueue<MT> >(VERIF_PREFIX "/HeterEventQueue/multi", 0, 3, 4, 1, 2);
 #endif
 	}
 } reg;
